@@ -224,6 +224,32 @@ func (st *State) havocAll(tag string) {
 			keep = append(keep, saved{a, v})
 		}()
 	}
+	// ... and so does the ghost state attached to such an object (builder content, counters)
+	type savedGhost struct {
+		key, sort, ref, val string
+	}
+	var keepG []savedGhost
+	for _, al := range append(append([]*ssa.Alloc(nil), st.fx.localCells()...), st.fx.unescapedLocals()...) {
+		ref, ok := st.env[al]
+		if !ok || ref.K != VRef {
+			continue
+		}
+		tn := fullTypeName(al.Type().(*types.Pointer).Elem())
+		for _, g := range st.fx.eng.cs.Ghosts {
+			if g.Arg != tn {
+				continue
+			}
+			sort, _ := ghostSort(g)
+			h := st.heapTermIn(st.heap, "ghost:"+g.Name, 1, sort)
+			keepG = append(keepG, savedGhost{"ghost:" + g.Name, sort, ref.T, "(select " + h + " " + ref.T + ")"})
+		}
+	}
+	defer func() {
+		for _, g := range keepG {
+			h := st.heapTermIn(st.heap, g.key, 1, g.sort)
+			st.heapSet(g.key, fmt.Sprintf("(store %s %s %s)", h, g.ref, g.val))
+		}
+	}()
 	defer func() {
 		for _, k := range keep {
 			func() {
